@@ -1,4 +1,5 @@
 import VelaVerif.Lemmas.InPlace
+import VelaVerif.Lemmas.InPlaceSpec
 import VelaVerif.Spec.InPlace
 /-!
 # C12 / C03 / C05 — the in-place decision chain (design.d/InPlace.md)
@@ -18,6 +19,9 @@ model's answer).
 * `fuse_dead_after` — the same as `InPlaceSpec.DeadAfter` over the operator order, `fuse_share_safe` as "the Spec
   checker `unsafeShares` accepts the decision", `fuse_arena_dies` over the order of `Spec/Arena.lean`:
   `Arena.dies (planOf g) a = o + 1`.
+* `fused_buffers_safe` — over whole shared buffers (chains through a Memcpy): for any list of the model's decisions, one
+  per operator, whose results are outputs of the deciding pass only, the Spec judgement `clobbers` finds nothing
+  (`Lemmas/InPlaceSpec.lean: clobbers_nil`: harmless links make harmless buffers).
 * `fused_not_variable` — under the rules of /verif_patches/C12-11 the chosen tensor is no variable tensor.
 * `fuse_safe_memcpy_witness`, `fuse_safe_variable_witness` — both are FALSE of the rules without those conditions:
   concrete graphs on which the model (like the real code: replayed by `./check C12`) fuses a tensor that is still needed.
@@ -111,6 +115,57 @@ theorem fuse_arena_dies (ru : FuseRules) (g : Graph) (hwf : g.wf = true) (s : St
     obtain ⟨_, hall⟩ := hW.reads_prod o a hr'
     obtain ⟨i, hi, hlt, _⟩ := hall _ hmem
     cases hi
+    exact hlt
+
+/-- **fused_buffers_safe.**  Over whole shared buffers (chains through a Memcpy, the shape of /verif_patches/C01-27):
+    take any list of decisions of the model on a well-formed graph — one per operator, each `fused ru g s d op = some x`
+    with `x` the description tensor `ifm` or its clone, under the rule that a Memcpy refuses a write protected IFM — whose results
+    `ofm` are outputs of the deciding pass and of no other pass (what `len(outp.tens.ops) == 1` asks for the elementwise
+    branch). Then the Spec judgement `clobbers`, which `./check C12` applies to the real decisions, finds nothing: no
+    operator writes into a buffer that holds a value still to be read. -/
+theorem fused_buffers_safe (ru : FuseRules) (hru : ru.memcpyWp = true) (g : Graph) (hwf : g.wf = true) (s : St)
+    (hs : extract g = .ok s) (hm : s.usedMultiple = false) (shares : List InPlaceSpec.Share)
+    (hdec : ∀ sh ∈ shares, g.sg sh.op ≠ 0 ∧ sh.ifm < g.tens.length ∧
+      ∃ d x, fused ru g s d sh.op = some x ∧ (x = sh.ifm ∨ s.src x = some sh.ifm))
+    (hofm : ∀ sh ∈ shares, sh.ofm ∈ g.O0 sh.op ∧ ∀ j, sh.ofm ∈ g.O0 j → j = sh.op)
+    (hinj : ∀ sh ∈ shares, ∀ sh' ∈ shares, sh.op = sh'.op → sh = sh') :
+    InPlaceSpec.clobbers (progOf g []) shares = [] := by
+  have hW := g.wf_WF hwf
+  apply InPlaceSpec.clobbers_nil
+  have hlink : ∀ sh ∈ shares, InPlaceSpec.readsAt (progOf g []) sh.op sh.ifm = true ∧
+      InPlaceSpec.DeadAfter (progOf g []) sh.op sh.ifm := by
+    intro sh hsh
+    obtain ⟨hsg, hil, d, x, hf, hx⟩ := hdec sh hsh
+    obtain ⟨a, hal, hxa, hr, hl, hout⟩ := fuse_safe ru g hwf s hs hm d sh.op x hsg (Or.inl hru) hf
+    obtain ⟨K, hinv⟩ := extract_inv hW hs hm
+    have : a = sh.ifm := by
+      rcases hx with h1 | h1 <;> rcases hxa with h2 | h2
+      · omega
+      · rw [h1, hinv.src_orig sh.ifm hil] at h2
+        cases h2
+      · rw [h2, hinv.src_orig a hal] at h1
+        cases h1
+      · rw [h1] at h2
+        exact (Option.some.inj h2).symm
+    subst this
+    refine ⟨by rw [readsAt_progOf]; exact hr, hout, by simp [progOf], ?_⟩
+    intro j hj
+    rw [readsAt_progOf]
+    exact hl j hj
+  refine ⟨fun sh hsh => (hlink sh hsh).1, ?_, fun sh hsh => (hlink sh hsh).2, ?_, ?_, hinj⟩
+  · intro sh hsh
+    rw [writesAt_progOf]
+    exact List.contains_iff_mem.mpr (hofm sh hsh).1
+  · intro sh hsh j hj
+    rw [writesAt_progOf] at hj
+    exact (hofm sh hsh).2 j (List.contains_iff_mem.mp hj)
+  · intro i j v hw hr
+    rw [writesAt_progOf] at hw
+    rw [readsAt_progOf] at hr
+    obtain ⟨_, hmem⟩ := hW.outputs_prod i v (List.contains_iff_mem.mp hw)
+    obtain ⟨_, hall⟩ := hW.reads_prod j v (List.contains_iff_mem.mp hr)
+    obtain ⟨i', hi', hlt, _⟩ := hall _ hmem
+    cases hi'
     exact hlt
 
 /-- **write_protection_complete.**  The clone `x` that the boundary rewrite makes of tensor `a` for NPU subgraph `k` is
@@ -249,5 +304,17 @@ example : onResult { tens := [⟨0, [0], false⟩, ⟨1, [1], false⟩], passes 
     (fun s => !s.wp 2 && s.src 2 == some 0 &&
       fused repairedRules { tens := [⟨0, [0], false⟩, ⟨1, [1], false⟩], passes := [startupPass [0], unary .npu 0 1],
                             outputs := [1] } s ewDesc 1 == some 2) = true := by decide
+
+/-- a whole buffer under the repaired rules: graph input `x` (one reader, no output) → RESHAPE kept as Memcpy → ABS: the
+    Memcpy shares the clone of `x`, the ABS overwrites the copy — three values in one buffer; the hypotheses of
+    `fused_buffers_safe` hold for the two decisions and the Spec finds nothing -/
+private def chainNet : Graph :=
+  { tens := [⟨0, [0], false⟩, ⟨1, [1], false⟩, ⟨2, [2], false⟩],
+    passes := [startupPass [0], unary .npu 0 1, unary .npu 1 2], outputs := [2] }
+
+example : onResult chainNet (fun s => chainNet.wf && !s.usedMultiple &&
+    fused repairedRules chainNet s mcDesc 1 == some 3 && s.src 3 == some 0 &&
+    fused repairedRules chainNet s ewDesc 2 == some 1 &&
+    InPlaceSpec.clobbers (progOf chainNet []) [⟨1, 0, 1, true⟩, ⟨2, 1, 2, false⟩] == []) = true := by decide
 
 end VelaVerif.Props.C12
